@@ -117,12 +117,13 @@ fn to_lsp_changes(changes: &[Change]) -> Vec<TextDocumentContentChangeEvent> {
         .collect()
 }
 
-pub fn make_handler(state: &Arc<ServerState>, uris: &[Url], wl: &Workload, ev: &Ev) -> HandlerFut {
+pub fn make_handler(state: &Arc<ServerState>, uris: &[Url], wl: &Workload, idx: usize) -> HandlerFut {
     let s = state.clone();
+    let ev = &wl.events[idx];
     match ev.clone() {
         Ev::Open { doc } => {
             let uri = uris[doc].clone();
-            let text = wl.files[doc].1.clone();
+            let text = client_model(wl).open_text.get(&idx).cloned().unwrap_or_else(|| wl.files[doc].1.clone());
             Box::pin(async move { s.did_open(DidOpenTextDocumentParams { text_document: TextDocumentItem { uri, language_id: "sway".into(), version: 1, text } }).await })
         }
         Ev::Change { doc, version, changes } => {
@@ -199,7 +200,7 @@ pub fn simulate(env: &Env, wl: &Workload, mode: Mode, opts: &SimOpts) -> SimResu
     });
     let names: Vec<String> = wl.events.iter().map(|e| e.name()).collect();
     let after_change: Mutex<Vec<(usize, Option<String>)>> = Mutex::new(vec![]);
-    let make = |i: usize| make_handler(&state, &uris, wl, &wl.events[i]);
+    let make = |i: usize| make_handler(&state, &uris, wl, i);
     let mut on_complete = |i: usize| {
         if let Ev::Change { doc, .. } = &wl.events[i] {
             after_change.lock().unwrap().push((i, server_text(&state, &uris[*doc])));
@@ -305,9 +306,16 @@ pub struct ClientModel {
     /// text of each doc *before* each Change event index
     pub before: BTreeMap<usize, String>,
     pub deleted: Vec<bool>,
+    /// text of the document as last saved (what a re-opened document shows after unsaved changes were discarded)
+    pub saved: Vec<String>,
+    pub opened: Vec<bool>,
+    /// text the client sends with each didOpen (event index -> text)
+    pub open_text: BTreeMap<usize, String>,
+    /// texts of all documents after each event (index = event index)
+    pub snap: Vec<Vec<String>>,
 }
 pub fn client_model(wl: &Workload) -> ClientModel {
-    let mut m = ClientModel { docs: wl.files.iter().map(|f| Doc::new(&f.1)).collect(), invalid: vec![], after: BTreeMap::new(), before: BTreeMap::new(), deleted: vec![false; wl.files.len()] };
+    let mut m = ClientModel { docs: wl.files.iter().map(|f| Doc::new(&f.1)).collect(), invalid: vec![], after: BTreeMap::new(), before: BTreeMap::new(), deleted: vec![false; wl.files.len()], saved: wl.files.iter().map(|f| f.1.clone()).collect(), opened: vec![false; wl.files.len()], open_text: BTreeMap::new(), snap: vec![] };
     for (i, ev) in wl.events.iter().enumerate() {
         match ev {
             Ev::Change { doc, changes, .. } => {
@@ -324,8 +332,19 @@ pub fn client_model(wl: &Workload) -> ClientModel {
                 m.after.insert(i, m.docs[*doc].text.clone());
             }
             Ev::Deleted { doc } => m.deleted[*doc] = true,
+            Ev::Save { doc } => m.saved[*doc] = m.docs[*doc].text.clone(),
+            Ev::Close { doc } => m.opened[*doc] = false,
+            Ev::Open { doc } => {
+                // opening shows the saved state: unsaved changes of a closed document are gone
+                if !m.opened[*doc] {
+                    m.docs[*doc] = Doc::new(&m.saved[*doc].clone());
+                    m.opened[*doc] = true;
+                }
+                m.open_text.insert(i, m.docs[*doc].text.clone());
+            }
             _ => {}
         }
+        m.snap.push(m.docs.iter().map(|d| d.text.clone()).collect());
     }
     m
 }
